@@ -170,7 +170,7 @@ def run(run):
         if abs(s - 4 * math.pi) > 1e-6:
             run.violation(f"the areas of all cells of resolution {r} sum to {s}, not 4*pi", f"resolution {r}", str(s))
     breqs = bulk.boundary_requests(run)
-    bulk.check(run, breqs[:2] if run.quick else breqs[:2] + breqs[-2:], "cell_to_boundary (bulk)")
+    bulk.check(run, breqs[:2] if run.quick else breqs[:2] + [b for b in breqs if " 1500000" in b[0] or " 4000000" in b[0]], "cell_to_boundary (bulk)")
     run.rule = ("rings with 65535 / 65536 (thorough: also 1.5e6 and 2^21) segments per edge (point count and hash vs the model); metadata for r = -2..32; polygon area (independent l'Huilier / tangent-plane integrator on the authalic sphere, WGS84 closed-form authalic latitude) of the reported boundary with 64/32 segments per edge: "
                 "all cells of resolution <= %d, cells at the poles, the antimeridian and the dodecahedron vertex/seam latitudes at every resolution, random cells up to r=29, fine cells (r = 24..29) straddling the circle of radius 2 asin(SAFE_ACOS_SWITCH) around the face centres; when implementation and model disagree on a boundary, the fine cells (r = 22..29) at the points of largest disagreement are measured as well; non-trivial = distinct cells measured" % rmax)
     run.samples = [{"request": breq[i], "area_rel_err": "see worst_relative_error", "impl": bimpl[i][:100]} for i in rng.sample(range(len(breq)), 4)]
